@@ -59,6 +59,9 @@ type evaluator struct {
 	// visit, when set, sees every call instruction the walker passes (in order); library calls whose
 	// result is not used are then walked as statements, so that their effects are seen too
 	visit func(fr *evalFrame, call *ssa.Call)
+	// counted, when positive, lets inlined helpers that contain one loop with closed-form carried values be
+	// read as tables over the iteration number (runCounted), with this iteration budget
+	counted int
 }
 
 func (fr *evalFrame) resolve(v ssa.Value) ssa.Value {
@@ -234,7 +237,7 @@ func (ev *evaluator) eval(fr *evalFrame, v ssa.Value, depth int) (interface{}, b
 			}
 			callee := call.Common().StaticCallee()
 			if callee != nil && ev.inline != nil && callee.Blocks != nil && ev.inline(callee) {
-				res, outcome := ev.run(callee, fr, call, nil, nil)
+				res, outcome := ev.runCallee(callee, fr, call)
 				if outcome == "return" && x.Index < len(res) {
 					return res[x.Index], true
 				}
@@ -516,7 +519,6 @@ func (ev *evaluator) eval(fr *evalFrame, v ssa.Value, depth int) (interface{}, b
 					if tv := globalTVal(g); tv != nil && tv.Kind == "list" {
 						return int64(len(tv.L)), true
 					}
-					return nil, false
 				}
 			}
 			if sv, ok := ev.eval(fr, x.Common().Args[0], depth+1); ok {
@@ -558,7 +560,22 @@ func (ev *evaluator) eval(fr *evalFrame, v ssa.Value, depth int) (interface{}, b
 				return nil, false
 			}
 			return fmt.Sprintf("%d", k), true
-		case "strings.Contains", "strings.Index", "strings.HasPrefix", "strings.HasSuffix":
+		case "strings.Replace":
+			if len(x.Common().Args) == 4 {
+				a, ok1 := ev.eval(fr, x.Common().Args[0], depth+1)
+				b, ok2 := ev.eval(fr, x.Common().Args[1], depth+1)
+				cc, ok3 := ev.eval(fr, x.Common().Args[2], depth+1)
+				n, ok4 := ev.eval(fr, x.Common().Args[3], depth+1)
+				as, isA := a.(string)
+				bs, isB := b.(string)
+				cs, isC := cc.(string)
+				ni, isN := n.(int64)
+				if ok1 && ok2 && ok3 && ok4 && isA && isB && isC && isN {
+					return strings.Replace(as, bs, cs, int(ni)), true
+				}
+			}
+			return nil, false
+		case "strings.Contains", "strings.Index", "strings.LastIndex", "strings.HasPrefix", "strings.HasSuffix":
 			a, ok1 := ev.eval(fr, x.Common().Args[0], depth+1)
 			b, ok2 := ev.eval(fr, x.Common().Args[1], depth+1)
 			as, isA := a.(string)
@@ -571,6 +588,8 @@ func (ev *evaluator) eval(fr *evalFrame, v ssa.Value, depth int) (interface{}, b
 				return strings.Contains(as, bs), true
 			case "Index":
 				return int64(strings.Index(as, bs)), true
+			case "LastIndex":
+				return int64(strings.LastIndex(as, bs)), true
 			case "HasPrefix":
 				return strings.HasPrefix(as, bs), true
 			}
@@ -600,7 +619,7 @@ func (ev *evaluator) eval(fr *evalFrame, v ssa.Value, depth int) (interface{}, b
 			return fmt.Sprintf(f, args...), true
 		}
 		if ev.inline != nil && callee.Blocks != nil && ev.inline(callee) {
-			res, outcome := ev.run(callee, fr, x, nil, nil)
+			res, outcome := ev.runCallee(callee, fr, x)
 			if outcome == "return" && len(res) == 1 {
 				return res[0], true
 			}
@@ -661,7 +680,7 @@ func (ev *evaluator) runFrame(fr *evalFrame, start *ssa.BasicBlock, stop func(b 
 					callee := x.Common().StaticCallee()
 					if refs := x.Referrers(); callee != nil && (refs == nil || len(*refs) == 0) && ev.inline != nil && callee.Blocks != nil && ev.inline(callee) {
 						if _, handled := ev.leaf(fr, x); !handled {
-							if _, outcome := ev.run(callee, fr, x, nil, nil); outcome == "panic" {
+							if _, outcome := ev.runCallee(callee, fr, x); outcome == "panic" {
 								return nil, "panic"
 							} else if outcome != "return" {
 								ev.setFail("statement call not walkable: " + fname(callee))
@@ -967,102 +986,77 @@ func mapLookups(fn *ssa.Function, table string) []*ssa.Lookup {
 	return out
 }
 
-// runCounted walks a function that contains exactly one loop whose loop-carried values are all
-// induction variables (entry value plus a constant per iteration): the part before the loop is
-// walked as usual; the loop body is then read as a decision table over the iteration number n, the
-// carried values being given by their closed form init + n*step, until an iteration returns or the
-// exit path does. No state other than the closed forms is carried from one n to the next. Outcomes
-// as for run; "fail" when the loop is not of that shape.
+// runCounted reads a function that contains exactly one loop as a table over the iteration number: the
+// part before the loop is walked as usual; then, for n = 0, 1, 2, ..., the loop body is walked with
+// the loop-carried values of iteration n, which are integers and strings (an index, a remaining
+// suffix of a table, a counter) computed from the carried values of iteration n-1 by the expressions
+// on the back edge — until an iteration returns, the exit path returns, or the budget is exhausted.
+// Nothing but those scalars is carried over (no heap state: the walker's field memory and its visit
+// hook are the only effects seen). This is partial evaluation of a pure scan, used only by rules whose
+// inputs are literal tables of the source or small finite domains enumerated completely. Outcomes as
+// for run; "fail" when a carried value is of another kind or cannot be evaluated.
 func (ev *evaluator) runCounted(fn *ssa.Function, maxIter int) ([]interface{}, string) {
-	var header *ssa.BasicBlock
+	return ev.runCountedFrame(&evalFrame{fn: fn, phiFrom: map[*ssa.BasicBlock]*ssa.BasicBlock{}}, maxIter)
+}
+
+func loopHeaderOf(fn *ssa.Function) (header *ssa.BasicBlock, many bool) {
 	for _, b := range fn.Blocks {
 		for _, p := range b.Preds {
 			if b.Dominates(p) {
 				if header != nil && header != b {
-					ev.setFail("more than one loop in " + fname(fn))
-					return nil, "fail"
+					return header, true
 				}
 				header = b
 			}
 		}
 	}
-	fr0 := &evalFrame{fn: fn, phiFrom: map[*ssa.BasicBlock]*ssa.BasicBlock{}}
+	return header, false
+}
+
+func (ev *evaluator) runCountedFrame(fr0 *evalFrame, maxIter int) ([]interface{}, string) {
+	fn := fr0.fn
+	header, many := loopHeaderOf(fn)
+	if many {
+		ev.setFail("more than one loop in " + fname(fn))
+		return nil, "fail"
+	}
 	if header == nil {
 		return ev.runFrame(fr0, nil, nil)
 	}
-	if header != fn.Blocks[0] {
-		res, outcome := ev.runFrame(fr0, nil, func(b *ssa.BasicBlock) bool { return b == header })
-		if outcome != fmt.Sprintf("stop:%d", header.Index) {
-			return res, outcome
-		}
-	} else {
+	if header == fn.Blocks[0] {
 		ev.setFail("the loop of " + fname(fn) + " starts at the entry")
 		return nil, "fail"
 	}
-	type iv struct {
-		phi        *ssa.Phi
-		init, step int64
-		other      interface{} // a loop-invariant value that is not an integer
-		invariant  bool
+	res, outcome := ev.runFrame(fr0, nil, func(b *ssa.BasicBlock) bool { return b == header })
+	if outcome != fmt.Sprintf("stop:%d", header.Index) {
+		return res, outcome
 	}
-	var ivs []iv
+	var phis []*ssa.Phi
 	for _, ins := range header.Instrs {
 		phi, ok := ins.(*ssa.Phi)
 		if !ok {
 			break
 		}
+		phis = append(phis, phi)
+	}
+	scalar := func(v interface{}) bool {
+		switch v.(type) {
+		case int64, string, bool, absPtr:
+			return true
+		}
+		return false
+	}
+	state := map[*ssa.Phi]interface{}{}
+	for _, phi := range phis {
 		c0, ok := ev.eval(fr0, phi, 0) // resolves to the entry edge
-		if !ok {
-			ev.setFail("the entry value of a loop-carried value of " + fname(fn) + " is not evaluable")
+		if !ok || !scalar(c0) {
+			ev.setFail("the entry value of a loop-carried value of " + fname(fn) + " is not an evaluable scalar")
 			return nil, "fail"
 		}
-		v := iv{phi: phi}
-		stepSet := false
-		for i, e := range phi.Edges {
-			if !header.Dominates(header.Preds[i]) {
-				continue
-			}
-			var d int64
-			switch {
-			case e == ssa.Value(phi):
-				d = 0
-			default:
-				bo, isB := e.(*ssa.BinOp)
-				if !isB || (bo.Op != token.ADD && bo.Op != token.SUB) {
-					ev.setFail("a loop-carried value of " + fname(fn) + " is not an induction variable")
-					return nil, "fail"
-				}
-				k, isK := constInt(bo.Y)
-				if isK && bo.X == ssa.Value(phi) {
-					d = k
-					if bo.Op == token.SUB {
-						d = -k
-					}
-				} else if k, isK := constInt(bo.X); isK && bo.Y == ssa.Value(phi) && bo.Op == token.ADD {
-					d = k
-				} else {
-					ev.setFail("a loop-carried value of " + fname(fn) + " is not an induction variable")
-					return nil, "fail"
-				}
-			}
-			if stepSet && d != v.step {
-				ev.setFail("a loop-carried value of " + fname(fn) + " advances differently on different paths")
-				return nil, "fail"
-			}
-			v.step, stepSet = d, true
-		}
-		if k, isI := c0.(int64); isI {
-			v.init = k
-		} else if v.step == 0 {
-			v.other, v.invariant = c0, true
-		} else {
-			ev.setFail("a loop-carried value of " + fname(fn) + " is not an integer")
-			return nil, "fail"
-		}
-		ivs = append(ivs, v)
+		state[phi] = c0
 	}
 	for n := 0; n < maxIter; n++ {
-		fr := &evalFrame{fn: fn, phiFrom: map[*ssa.BasicBlock]*ssa.BasicBlock{}, vals: map[ssa.Value]interface{}{}}
+		fr := &evalFrame{fn: fn, parent: fr0.parent, call: fr0.call, phiFrom: map[*ssa.BasicBlock]*ssa.BasicBlock{}, vals: map[ssa.Value]interface{}{}}
 		for k, p := range fr0.phiFrom {
 			if k != header {
 				fr.phiFrom[k] = p
@@ -1071,18 +1065,48 @@ func (ev *evaluator) runCounted(fn *ssa.Function, maxIter int) ([]interface{}, s
 		for k, x := range fr0.vals {
 			fr.vals[k] = x
 		}
-		for _, v := range ivs {
-			if v.invariant {
-				fr.vals[v.phi] = v.other
-			} else {
-				fr.vals[v.phi] = v.init + int64(n)*v.step
-			}
+		for phi, v := range state {
+			fr.vals[phi] = v
 		}
 		res, outcome := ev.runFrame(fr, header, func(b *ssa.BasicBlock) bool { return b == header })
 		if outcome != fmt.Sprintf("stop:%d", header.Index) {
 			return res, outcome
 		}
+		latch := fr.phiFrom[header]
+		delete(fr.phiFrom, header)
+		idx := -1
+		for i, p := range header.Preds {
+			if p == latch {
+				idx = i
+			}
+		}
+		if idx < 0 {
+			ev.setFail("the back edge of the loop of " + fname(fn) + " was not found")
+			return nil, "fail"
+		}
+		next := map[*ssa.Phi]interface{}{}
+		for _, phi := range phis {
+			v, ok := ev.eval(fr, phi.Edges[idx], 0)
+			if !ok && ev.panicked {
+				return nil, "panic"
+			}
+			if !ok || !scalar(v) {
+				ev.setFail("a loop-carried value of " + fname(fn) + " is not an evaluable scalar")
+				return nil, "fail"
+			}
+			next[phi] = v
+		}
+		state = next
 	}
 	ev.setFail("the loop of " + fname(fn) + " does not end within the iteration budget")
 	return nil, "fail"
+}
+
+// runCallee reads an inlined library callee: loop-free ones by the walker, and (when ev.counted is set)
+// those with one closed-form loop as a table over the iteration number.
+func (ev *evaluator) runCallee(callee *ssa.Function, fr *evalFrame, call *ssa.Call) ([]interface{}, string) {
+	if h, _ := loopHeaderOf(callee); h != nil && ev.counted > 0 {
+		return ev.runCountedFrame(&evalFrame{fn: callee, parent: fr, call: call, phiFrom: map[*ssa.BasicBlock]*ssa.BasicBlock{}}, ev.counted)
+	}
+	return ev.run(callee, fr, call, nil, nil)
 }
